@@ -1,0 +1,10 @@
+//go:build verif
+
+package distinct
+
+import "math/rand/v2"
+
+// VerifReseed replaces the random source of c with one derived from seed, so
+// that a monitor can replay a run. It is compiled only with the "verif" build
+// tag.
+func VerifReseed[T comparable](c *Counter[T], seed [32]byte) { c.rng = rand.NewChaCha8(seed) }
